@@ -20,11 +20,21 @@ RULE = (
     "Oracle: a delivery whose processed mark was durable before the delivery's claim commit never enters a handler; "
     "no task executes after its completion is durable; execution counts equal the exactly-once reference. "
     "(b) the filter itself: hypothesis-generated id sets (arbitrary unicode, tiny and large capacities) under a shadow "
-    "set contract: maybe_seen(x) is True for every x told via mark_seen / hydrate since the last reset. Non-trivial = "
+    "set contract: maybe_seen(x) is True for every x told via mark_seen / hydrate since the last reset. "
+    "(c) 'to a different worker': 2-4 worker threads of ONE process (the single-writer setting in which "
+    "dedup_trust_negative_cache is allowed) share the global filter, a tiny filter capacity forces rotation + "
+    "re-hydration while other threads are mid-handling, every message is forgotten once (no ack, lock lapses) and comes "
+    "back to whichever thread polls next; threads are interleaved by the cooperative scheduler at every SQL statement "
+    "AND at every filter operation (maybe_seen / mark_seen / reset / hydrate / per-id hashing / authoritative). Same "
+    "oracle: a delivery polled after the message's processed mark was durable never enters a handler. "
+    "(d) the same protocol in isolation at volume: 3-5 threads push fresh and already-processed ids through the real "
+    "_handle_message (real store, real global filter, no-op handler) while the filter's age limit passes at random "
+    "moments, so rotations overlap with handling and with each other; an id whose earlier call had returned must never "
+    "reach the handler. Non-trivial = "
     "redelivery of an already marked message; distinct = (message type, disturbance mode, trust flag)."
 )
 ASSUMPTIONS = ["SQLite backend", "dedup_trust_negative_cache=True only in the single-writer setting the option documents"]
-MIN_OBS = {"marked_redeliveries": {"quick": 2000, "thorough": 30000}, "bloom_ids_checked": {"quick": 5000, "thorough": 100000}}
+MIN_OBS = {"marked_redeliveries": {"quick": 2000, "thorough": 30000}, "bloom_ids_checked": {"quick": 5000, "thorough": 100000}, "threaded_marked_redeliveries": {"quick": 5000, "thorough": 80000}, "threaded_rotations": {"quick": 500, "thorough": 8000}, "threaded_hydrations": {"quick": 300, "thorough": 5000}}
 TIMEOUT = {"quick": 800, "thorough": 3400}
 
 MODES = ["none", "rotate", "reset_dedup", "new_processor", "mixed"]
@@ -40,6 +50,10 @@ def gen_cases(tier: str, seed: int) -> list[dict]:
         cases.append({"kind": "restart", "spec_i": i * 2, "seed": seed})
     for i in range(4 if tier == "quick" else 40):
         cases.append({"kind": "bloom", "i": i, "seed": seed, "examples": 150 if tier == "quick" else 600})
+    for i in range(96 if tier == "quick" else 1200):
+        cases.append({"kind": "threads", "i": i, "seed": seed, "trust": i % 4 != 3})
+    for i in range(160 if tier == "quick" else 3000):
+        cases.append({"kind": "protocol", "i": i, "seed": seed, "trust": i % 5 != 4})
     return cases
 
 
@@ -202,6 +216,190 @@ def _bloom(case: dict) -> dict:
     return {"violations": violations, "obs": dict(obs), "keys": sorted(keys)}
 
 
+def _bloom_points(sched, world):
+    """Make every operation on the shared in-memory filter a yield point of the cooperative
+    scheduler (the wrappers run before the filter takes its own lock)."""
+    from stabilize.queue.dedup import BloomDeduplicator as B
+
+    names = [n for n in ("maybe_seen", "mark_seen", "reset", "hydrate", "_get_hash_positions", "is_definitely_new", "should_reset") if n in B.__dict__]
+    saved = {n: B.__dict__[n] for n in names + ["authoritative"]}
+    counts = world.bloom_ops = Counter()
+
+    def wrap(name):
+        orig = saved[name]
+
+        def f(self, *a, **k):
+            counts[name] += 1
+            sched.point("bloom:" + name + (":" + str(a[0])[:12] if name in ("maybe_seen", "mark_seen", "is_definitely_new") and a else ""))
+            return orig(self, *a, **k)
+
+        return f
+
+    for n in names:
+        setattr(B, n, wrap(n))
+    pget = saved["authoritative"].fget
+
+    def auth(self):
+        sched.point("bloom:authoritative")
+        return pget(self)
+
+    B.authoritative = property(auth)
+
+    def undo():
+        for n, v in saved.items():
+            setattr(B, n, v)
+
+    return undo
+
+
+def _threads(case: dict) -> dict:
+    from .. import interleave
+
+    rng = random.Random(case["seed"] * 7919 + case["i"])
+    shapes = [specs.diamond(), specs.first_of(3), specs.quorum(3, 2), specs.multitask(), specs.or_split(), specs.jump_loop(1, 2), specs.polling(2), specs.transient(2, True), specs.random_dag(rng, rng.randint(4, 7))]
+    spec = shapes[case["i"] % len(shapes)]
+    nworkers = case.get("workers") or rng.choice([2, 3, 3, 4])
+    pol = interleave.RandomPolicy(rng.randrange(1 << 30), switch_p=rng.choice([0.15, 0.3, 0.5])) if case["i"] % 3 else interleave.PCT(rng.randrange(1 << 30), d=rng.choice([2, 3, 5]), horizon=rng.choice([300, 1200]))
+    forgotten: set = set()
+    p_forget = rng.choice([0.5, 1.0])
+
+    p_age = case.get("p_age", rng.choice([0.0, 0.1, 0.3]))
+
+    def ack_fn(w, msg):
+        if rng.random() < p_age:
+            # virtual time: the filter's 24 h age limit passes (age-based rotation on the next message)
+            from stabilize.queue.dedup import get_deduplicator
+
+            get_deduplicator()._creation_time -= 90000.0
+        if msg.message_id in forgotten or rng.random() > p_forget:
+            return True
+        forgotten.add(msg.message_id)
+        return False
+
+    records: list = []
+    holder: dict = {}
+
+    def with_sched(sched, world):
+        holder["w"] = world
+        return _bloom_points(sched, world)
+
+    run, info = interleave.run_workers(spec, nworkers, pol, world_kw={"dedup_items": rng.choice([8, 200, 200, 1000]), "trust_negative": case["trust"]}, ack_fn=ack_fn, records=records, with_sched=with_sched, max_msgs=500, watchdog=120.0)
+    obs: Counter = Counter()
+    obs["evaluations"] += 1
+    if run is None:
+        obs["scheduler_failed"] += 1
+        return {"violations": [], "obs": dict(obs), "keys": [], "inconclusive": info.get("failed")}
+    ops = getattr(holder.get("w"), "bloom_ops", Counter())
+    obs["threaded_rotations"] += ops.get("reset", 0)
+    obs["threaded_hydrations"] += ops.get("hydrate", 0)
+    obs["threaded_filter_ops"] += sum(ops.values())
+    obs["threaded_switches"] += info["switches"]
+    mark_seq: dict = {}
+    for a in run.audit:
+        if a["kind"] == "mark" and a["op"] == "ins":
+            mark_seq.setdefault(a["a"], a["seq"])
+    violations = []
+    keys: set = set()
+    for r in records:
+        ms = mark_seq.get(r["polled"])
+        if ms is not None and ms <= r["pre_seq"]:
+            obs["threaded_marked_redeliveries"] += 1
+            keys.add(f"threads:{r['type']}:{case['trust']}")
+            if r["handled"]:
+                violations.append(viol("C09/handled-although-marked:threads", f"{r['type']} {r['polled']} entered its handler on {r['thread']} although its processed mark (seq {ms}) was durable before the poll (seq {r['pre_seq']}); trust_negative={case['trust']}, filter ops {dict(ops)}", trace_hash=info["trace_hash"]))
+    v2, _ = c02.effect_oracles(spec, run, prop="C09")
+    violations += [x for x in v2 if "handled-although-marked" not in x["sig"]]
+    for x in violations:
+        x.update(spec=spec["name"], workers=nworkers, trust=case["trust"])
+    return {"violations": _uniq(violations), "obs": dict(obs), "keys": sorted(keys)}
+
+
+def _protocol(case: dict) -> dict:
+    """The dedup protocol of QueueProcessor._handle_message in isolation, at volume: 3-5 threads of one
+    process push fresh and already-processed message ids through the real _handle_message (real store, real
+    global filter, a no-op handler), the filter's age limit passes at random moments so rotations overlap
+    with handling and with each other.  An id taken from the harness's 'done' list (its _handle_message call
+    returned, so its processed row is durable) must never reach the handler."""
+    import threading
+
+    from stabilize.queue.dedup import get_deduplicator
+    from stabilize.queue.messages import StartWorkflow
+
+    from .. import interleave
+    from ..world import World
+
+    rng = random.Random(case["seed"] * 104729 + case["i"])
+    interleave.prepare_env()
+    w = World(dedup_items=rng.choice([8, 64, 400]), trust_negative=case["trust"])
+    entered: list = []
+    done: list = []
+    obs: Counter = Counter()
+
+    class NoOp:
+        def handle(self, message):
+            entered.append(message.message_id)
+
+    w.processor._handlers[StartWorkflow] = NoOp()
+    nthreads = rng.choice([3, 4, 5])
+    per = rng.choice([25, 40])
+    p_age = rng.choice([0.05, 0.2, 0.5])
+    p_old = rng.choice([0.4, 0.7])
+    pol = interleave.RandomPolicy(rng.randrange(1 << 30), switch_p=rng.choice([0.2, 0.4, 0.6])) if case["i"] % 3 else interleave.PCT(rng.randrange(1 << 30), d=rng.choice([3, 6, 10]), horizon=rng.choice([500, 3000]))
+    sched = interleave.Scheduler(pol, watchdog=120.0)
+    w.commit_listeners.append(lambda world, idx, conn: sched.commit_event(conn))
+    violations: list = []
+    counter = [0]
+    rngs = {f"W{i}": random.Random(rng.randrange(1 << 30)) for i in range(nthreads)}
+
+    def body() -> None:
+        me = threading.current_thread().name
+        r = rngs[me]
+        for _ in range(per):
+            if r.random() < p_age:
+                get_deduplicator()._creation_time -= 90000.0
+            old = bool(done) and r.random() < p_old
+            if old:
+                mid = r.choice(done)
+            else:
+                counter[0] += 1
+                mid = f"m{counter[0]}"
+            before = entered.count(mid)
+            try:
+                w.processor._handle_message(StartWorkflow(execution_type="PIPELINE", execution_id="x", message_id=mid))
+            except Exception as e:  # lock conflict delivered to the application: the delivery failed, message comes back
+                obs["failed_deliveries"] += 1
+                try:
+                    w.store._get_connection().rollback()
+                except Exception:
+                    pass
+                continue
+            if old:
+                obs["threaded_marked_redeliveries"] += 1
+                if entered.count(mid) > before:
+                    violations.append(viol("C09/handled-although-marked:protocol", f"id {mid} had been handled and marked (call returned) before this delivery started on {me}, yet the handler was entered again; trust_negative={case['trust']}"))
+            else:
+                done.append(mid)
+
+    undo = _bloom_points(sched, w)
+    try:
+        sched.run({n: body for n in rngs})
+    finally:
+        undo()
+    ops = w.bloom_ops
+    obs["evaluations"] += 1
+    obs["threaded_rotations"] += ops.get("reset", 0)
+    obs["threaded_hydrations"] += ops.get("hydrate", 0)
+    obs["threaded_filter_ops"] += sum(ops.values())
+    obs["threaded_switches"] += sched.switches
+    failed = sched.failed
+    errs = {k: repr(v)[:200] for k, v in sched.errors.items()}
+    w.close()
+    if failed or errs:
+        obs["scheduler_failed"] += 1
+        return {"violations": [], "obs": dict(obs), "keys": [], "inconclusive": failed or str(errs)}
+    return {"violations": _uniq(violations), "obs": dict(obs), "keys": [f"protocol:{case['trust']}:{nthreads}"] if obs["threaded_marked_redeliveries"] else []}
+
+
 def _uniq(vs: list[dict]) -> list[dict]:
     seen = set()
     out = []
@@ -217,4 +415,8 @@ def run_case(case: dict) -> dict:
         return _redeliver(case)
     if case["kind"] == "restart":
         return _restart(case)
+    if case["kind"] == "threads":
+        return _threads(case)
+    if case["kind"] == "protocol":
+        return _protocol(case)
     return _bloom(case)
